@@ -317,9 +317,11 @@ func Run(target string, data []byte) (res *Result) {
 		}
 		ok.Decoded = true
 		for _, ctx := range []string{"", "ctx"} {
-			payload, res, err := envelope.UnlockEnvelope(ctx, env, []crypto.PrivKey{gen.Key(0), gen.Key(1)})
-			if err == nil && payload == nil && res == nil {
-				return viol("nil-nil-nil/envelope", "UnlockEnvelope returned (nil,nil,nil)")
+			for _, keys := range [][]crypto.PrivKey{{gen.Key(0), gen.Key(1)}, {gen.Key(1)}, {gen.Key(0)}, nil} {
+				payload, res, err := envelope.UnlockEnvelope(ctx, env, keys)
+				if err == nil && payload == nil && res == nil {
+					return viol("nil-nil-nil/envelope", "UnlockEnvelope returned (nil,nil,nil)")
+				}
 			}
 		}
 	case "peer-id":
@@ -448,6 +450,29 @@ func Seeds(target string) [][]byte {
 		if err == nil {
 			b, _ := env.MarshalVT()
 			valid = append(valid, b)
+		}
+		// structurally tampered envelopes with the right context: a grant to both recipients with its last ciphertext
+		// dropped / an extra keypair index / a ciphertext cut to a few bytes / grants repeated
+		if env2, err := envelope.BuildEnvelope(gen.NewDetStream([]byte("seed2")), "ctx", []byte("payload"), []crypto.PubKey{gen.Key(0).GetPublic(), gen.Key(1).GetPublic()},
+			&envelope.EnvelopeConfig{Threshold: 0, GrantConfigs: []*envelope.EnvelopeGrantConfig{{ShareCount: 1, KeypairIndexes: []uint32{0, 1}}}}); err == nil {
+			for variant := 0; variant < 5; variant++ {
+				e := env2.CloneVT()
+				g := e.Grants[0]
+				switch variant {
+				case 0:
+					g.Ciphertexts = g.Ciphertexts[:1]
+				case 1:
+					g.KeypairIndexes = append(g.KeypairIndexes, 1, 0, 7)
+				case 2:
+					g.Ciphertexts[1] = g.Ciphertexts[1][:24]
+				case 3:
+					e.Grants = append(e.Grants, g.CloneVT(), g.CloneVT())
+				case 4:
+					g.Ciphertexts = nil
+				}
+				b, _ := e.MarshalVT()
+				valid = append(valid, b)
+			}
 		}
 	case "peer-id":
 		valid = append(valid, []byte(gen.PeerID(1)), []byte(gen.PeerID(1).String()), []byte{0x12, 0x20}, []byte{0x00, 0x24, 0x08, 0x01, 0x12, 0x20})
